@@ -1,5 +1,7 @@
 import SpoxModel.Lemmas.Prog
 import SpoxModel.Lemmas.ProgRename
+import SpoxModel.Lemmas.ProgUsed
+import SpoxModel.Generated.C01Entry
 /-!
 # C01 — a built model computes exactly the dataflow the program describes
 
@@ -16,6 +18,11 @@ Property-level theorems about the shared program model (`Model/Prog.lean`).
   `emission_irrelevant`, `outer_binding_irrelevant` — nothing about how the program was written
   (creation order, what else was constructed, which valid emission the builder chose) changes the
   computed values: `denote` only reads the dataflow.
+* `denote_congr_needed`, `unused_inputs_irrelevant`, `drop_unused_inputs_sound` — the non-default
+  build option: the requested values depend only on the arguments the traversal `needed` reaches
+  (through inputs and through bodies at ANY depth); an accepted emission of the main graph that lists
+  only `usedArgs` (what `build(..., drop_unused_inputs=True)` must return), run on the values of those
+  inputs alone, yields the dataflow's value on the full binding.
 * non-vacuity: the nested-If program of `tests/test_subgraphs.py` and a 3-level If/Loop/If program
   with a value used only in the innermost body, with concrete integer semantics.
 -/
@@ -109,6 +116,126 @@ theorem written_differently_same_values (S : Sem Val) (p p' : List PNode) (hwf :
   exact (creation_order_irrelevant S p p' hwf hwf' σ hσ D hD _ _
     (updArgs_map σ hσ (fun _ => default) (fun _ => default) (fun _ => rfl) main.args vals)
     r (hmain r hr)).symm
+
+
+/-! ## Non-default build option: only the inputs that are read -/
+
+/-- The requested values depend only on the arguments reached by the traversal `needed` (node inputs
+    and body results, at any nesting depth): two bindings that agree there give the same values. -/
+theorem denote_congr_needed (S : Sem Val) (prog : List PNode) (hwf : WF prog) (results : List VarRef)
+    (b b' : Nat → Val) (hb : ∀ a ∈ needed prog (results.map (·.node)), b a = b' a) :
+    results.map (denote S prog b) = results.map (denote S prog b') := by
+  apply List.map_congr_left
+  intro r hr
+  unfold denote getVar
+  have hmem : r.node ∈ needed prog (results.map (·.node)) :=
+    needed_mono prog _ _ (List.mem_map.mpr ⟨r, hr, rfl⟩)
+  by_cases hlt : r.node < prog.length
+  · rw [table_congr_needed S prog hwf _ b b' hb r.node hmem hlt]
+  · by_cases heq : r.node = prog.length
+    · -- one past the newest node: both tables have no such entry
+      have h1 : ∀ c : Nat → Val, valAt (table S prog c) r.node = [] := by
+        intro c
+        cases hp : table S prog c with
+        | nil => rfl
+        | cons v t =>
+          have hl : (table S prog c).length = prog.length := table_length S prog c
+          rw [hp] at hl
+          simp only [valAt]
+          have hne : ¬ r.node = t.length := by simp at hl; omega
+          rw [if_neg hne]
+          exact valAt_ge t r.node (Or.inl (by simp at hl; omega))
+      rw [h1 b, h1 b']
+    · rw [valAt_ge _ _ (Or.inl (by simp; omega)), valAt_ge _ _ (Or.inl (by simp; omega))]
+
+/-- What is bound to the inputs that are NOT read — declared but unused model inputs — changes no
+    requested value. -/
+theorem unused_inputs_irrelevant (S : Sem Val) (prog : List PNode) (hwf : WF prog) (main : PGraph)
+    (b : Nat → Val) (vals vals' : List Val)
+    (h : ∀ a ∈ usedArgs prog main, updArgs b main.args vals a = updArgs b main.args vals' a) :
+    denoteG S prog b main vals = denoteG S prog b main vals' := by
+  unfold denoteG
+  apply denote_congr_needed S prog hwf
+  intro a ha
+  by_cases hm : a ∈ main.args
+  · apply h
+    unfold usedArgs
+    rw [List.mem_filter]
+    exact ⟨hm, by simpa using ha⟩
+  · rw [updArgs_not_mem b main.args vals a hm, updArgs_not_mem b main.args vals' a hm]
+
+/-- **`drop_unused_inputs=True`.**  Any accepted emission of the main graph that lists only the used
+    arguments (`dropUnused`), run on the actual values of those inputs alone, yields for each
+    requested output the program's dataflow value on the full binding — however deep in nested bodies
+    the inputs are read, and whatever the dropped inputs were bound to. -/
+theorem drop_unused_inputs_sound (S : Sem Val) (prog : List PNode) (hwf : WF prog) (e : EGraph)
+    (main : PGraph) (hv : validG prog e (dropUnused prog main) [] = true) (b : Nat → Val)
+    (vals : List Val) :
+    evalG S prog e (fun _ => none)
+        (usedVals (needed prog (main.results.map (·.node))).contains main.args vals)
+      = some (denoteG S prog b main vals) := by
+  rw [valid_sound S prog hwf e (dropUnused prog main) hv b]
+  congr 1
+  unfold denoteG dropUnused usedArgs
+  apply denote_congr_needed S prog hwf
+  intro a ha
+  exact updArgs_filter _ b main.args vals a (by simpa using ha)
+
+/-- **Every input that is read must be listed.**  Whatever emission is accepted for results `main'.results`
+    with input list `main'.args`: an argument reached from the results through node inputs and bodies —
+    at whatever nesting depth — that is not a formal of some body is one of the listed inputs.
+    (Side conditions executable: `argsLeaf`, `isArg`, `notFormal`; the driver evaluates them on every run.) -/
+theorem read_inputs_must_be_listed (prog : List PNode) (hleaf : argsLeaf prog = true) (e : EGraph)
+    (main' : PGraph) (hv : validG prog e main' [] = true) (a : Nat)
+    (ha : a ∈ needed prog (main'.results.map (·.node))) (hisarg : isArg prog a = true)
+    (hnf : notFormal prog a = true) : a ∈ main'.args :=
+  needed_arg_listed prog (argsLeaf_sound prog hleaf) e main' hv a ha hisarg
+    (fun pg ⟨k, pn, hk, hpg⟩ => notFormal_sound prog a hnf k pn hk pg hpg)
+
+/-- `usedArgs` is the LEAST input list: any accepted model of the same results lists every used input
+    of the caller's list — no build option may drop an input that is read, however deep. -/
+theorem usedArgs_least (prog : List PNode) (hleaf : argsLeaf prog = true) (e : EGraph) (main : PGraph)
+    (args' : List Nat) (hv : validG prog e ⟨args', main.results⟩ [] = true)
+    (hmain : ∀ a ∈ main.args, isArg prog a = true ∧ notFormal prog a = true) :
+    ∀ a ∈ usedArgs prog main, a ∈ args' := by
+  intro a ha
+  unfold usedArgs at ha
+  rw [List.mem_filter] at ha
+  obtain ⟨hm, hc⟩ := ha
+  exact read_inputs_must_be_listed prog hleaf e ⟨args', main.results⟩ hv a (by simpa using hc)
+    (hmain a hm).1 (hmain a hm).2
+
+/-- The inputs that remain are listed in the caller's order (a sublist of the caller's list). -/
+theorem usedArgs_caller_order (prog : List PNode) (main : PGraph) :
+    (usedArgs prog main).Sublist main.args := by
+  unfold usedArgs
+  exact List.filter_sublist
+
+/-- Asking again for the dropped graph drops nothing more. -/
+theorem dropUnused_idempotent (prog : List PNode) (main : PGraph) :
+    dropUnused prog (dropUnused prog main) = dropUnused prog main := by
+  unfold dropUnused usedArgs
+  simp only [List.filter_filter, Bool.and_self]
+
+/-! ## Tie G: every way to build that the source offers is one the check exercises -/
+
+/-- The `to_onnx_model` options the harness varies (`TO_MODEL_KW` in `harness/props/c01.py`; the harness
+    compares its table with this list on every run). -/
+def exercisedToModelOptions : List String :=
+  ["producer_name", "model_doc_string", "infer_shapes", "check_model", "ir_version", "concrete"]
+/-- The `Graph` setters the harness's graph route calls. -/
+def exercisedSetters : List String := ["with_arguments", "with_doc", "with_name", "with_opset"]
+
+/-- Generated from the source on every run: `spox.build(inputs, outputs, *, drop_unused_inputs=False)`
+    has no further option, `drop_unused_inputs` defaults to `False` (the default build lists every
+    caller input — `valid_sound`'s main graph; `True` is `dropUnused` — `drop_unused_inputs_sound`), and
+    every `Graph.to_onnx_model` option / `Graph.with_*` setter is one the harness varies.  A new option,
+    setter or a flipped default fails this obligation whatever programs are generated. -/
+theorem generated_entry_options_exercised :
+    Generated.C01Entry.buildPositional = ["inputs", "outputs"]
+    ∧ Generated.C01Entry.buildOptions = [("drop_unused_inputs", "False")]
+    ∧ (Generated.C01Entry.toModelOptions.map (·.1)).all exercisedToModelOptions.contains = true
+    ∧ Generated.C01Entry.graphSetters.all exercisedSetters.contains = true := by decide
 
 /-! ## Non-vacuity: concrete programs, concrete semantics -/
 
@@ -228,5 +355,58 @@ example (vals : List Int) :
 /-- A loop formal used outside its body (leak): rejected — `6` is not visible in main. -/
 example : validG deep.nodes
     (.mk [0, 1, 2] [.mk 7 []] [⟨7, 0⟩]) ⟨[0, 1, 2], [⟨7, 0⟩]⟩ [] = false := by decide
+
+/-- Where an input is read: `u` (3) only in the innermost body (depth 3), `z` (4) nowhere.
+    0 n, 1 x, 2 c, 3 u, 4 z, 5 iter, 6 cond, 7 acc (loop formals), 8 acc + u, 9 If c then (8) else acc,
+    10 Loop(n, -, x) body (5, 6, 7) ↦ (6, 9), 11 If c then (10) else x. -/
+def deepU : Program where
+  nodes := [
+    ⟨.op 2, [some ⟨2, 0⟩], [⟨[], [⟨10, 0⟩]⟩, ⟨[], [⟨1, 0⟩]⟩]⟩,                       -- 11
+    ⟨.op 3, [some ⟨0, 0⟩, none, some ⟨1, 0⟩], [⟨[5, 6, 7], [⟨6, 0⟩, ⟨9, 0⟩]⟩]⟩,      -- 10
+    ⟨.op 2, [some ⟨2, 0⟩], [⟨[], [⟨8, 0⟩]⟩, ⟨[], [⟨7, 0⟩]⟩]⟩,                        -- 9
+    ⟨.op 0, [some ⟨7, 0⟩, some ⟨3, 0⟩], []⟩,                                          -- 8
+    ⟨.arg, [], []⟩, ⟨.arg, [], []⟩, ⟨.arg, [], []⟩,                                   -- 7 6 5
+    ⟨.arg, [], []⟩, ⟨.arg, [], []⟩, ⟨.arg, [], []⟩, ⟨.arg, [], []⟩, ⟨.arg, [], []⟩]   -- 4 3 2 1 0
+  main := ⟨[0, 1, 2, 3, 4], [⟨11, 0⟩]⟩
+
+/-- What `build(..., drop_unused_inputs=True)` returns: inputs `n x c u`, not `z`. -/
+def deepUDropped : EGraph :=
+  .mk [0, 1, 2, 3]
+    [.mk 11 [
+      .mk [] [.mk 10 [
+        .mk [5, 6, 7] [.mk 9 [
+          .mk [] [.mk 8 []] [⟨8, 0⟩],
+          .mk [] [] [⟨7, 0⟩]]] [⟨6, 0⟩, ⟨9, 0⟩]]] [⟨10, 0⟩],
+      .mk [] [] [⟨1, 0⟩]]]
+    [⟨11, 0⟩]
+
+/-- A listing that looks for reads in the main graph and first-level bodies only loses `u`. -/
+def deepUDepth1 : EGraph :=
+  match deepUDropped with
+  | .mk _ body res => .mk [0, 1, 2] body res
+
+example : wfCheck deepU.nodes = true := by decide
+example : usedArgs deepU.nodes deepU.main = [0, 1, 2, 3] := by decide
+example : validG deepU.nodes deepUDropped (dropUnused deepU.nodes deepU.main) [] = true := by decide
+-- n = 2, x = 5, c = 1, u = 7 (z = 99 is not fed):  acc: 5 → 12 → 19
+example : usedVals (needed deepU.nodes (deepU.main.results.map (·.node))).contains deepU.main.args
+    [2, 5, 1, 7, (99 : Int)] = [2, 5, 1, 7] := by decide
+example : evalG exSem deepU.nodes deepUDropped (fun _ => none) [2, 5, 1, 7] = some [19] := by decide
+example : denoteG exSem deepU.nodes (fun _ => 0) deepU.main [2, 5, 1, 7, 99] = [19] := by decide
+example (vals : List Int) :
+    evalG exSem deepU.nodes deepUDropped (fun _ => none)
+        (usedVals (needed deepU.nodes (deepU.main.results.map (·.node))).contains deepU.main.args vals)
+      = some (denoteG exSem deepU.nodes (fun _ => 0) deepU.main vals) :=
+  drop_unused_inputs_sound exSem deepU.nodes (wfCheck_sound _ (by decide)) _ deepU.main (by decide) _ vals
+example : argsLeaf deepU.nodes = true := by decide
+example : ∀ a ∈ deepU.main.args, isArg deepU.nodes a = true ∧ notFormal deepU.nodes a = true := by decide
+/-- the theorem instantiated: whatever accepted emission lists inputs `args'`, `u` (3) is among them -/
+example (e : EGraph) (args' : List Nat) (hv : validG deepU.nodes e ⟨args', deepU.main.results⟩ [] = true) :
+    3 ∈ args' :=
+  usedArgs_least deepU.nodes (by decide) e deepU.main args' hv (by decide) 3 (by decide)
+/-- dropping the input that is read only at depth 3: rejected, and the value is not the dataflow's -/
+example : validG deepU.nodes deepUDepth1 ⟨[0, 1, 2], [⟨11, 0⟩]⟩ [] = false := by decide
+example : evalG exSem deepU.nodes deepUDepth1 (fun _ => none) [2, 5, 1]
+    ≠ some (denoteG exSem deepU.nodes (fun _ => 0) deepU.main [2, 5, 1, 7, 99]) := by decide
 
 end C01
